@@ -201,12 +201,29 @@ class ExprMixin:
         return True
 
     PURE_CALLS = {"len", "isinstance", "get", "old", "forall", "exists", "implies", "Some", "mapget", "visited",
-                  "index", "smt", "ite", "startswith", "endswith", "keys", "dom", "contains"}
+                  "index", "smt", "ite", "startswith", "endswith", "keys", "dom", "contains", "member"}
 
     def ev_binop(self, n, st, old):
         a = self.ev(n.left, st, old)
         b = self.ev(n.right, st, old)
         op = type(n.op)
+
+        def keys_as_set(v):
+            # d.keys() used as a set
+            if isinstance(v, tuple) and not isinstance(v, (T, TupV)) and v and v[0] == "mapview" and v[1] == "keys":
+                m = v[2]
+                r = self.opaque("keys", ("Set", m.sort[1]))
+                st.pc.append(f"(forall ((|q_ks| {sort_smt(m.sort[1])})) (= (select {r.s} |q_ks|) {is_some(T(('Opt', m.sort[2]), f'(select {m.s} |q_ks|)')).s}))")
+                return r
+            return v
+        a, b = keys_as_set(a), keys_as_set(b)
+        if (isinstance(a, tuple) and not isinstance(a, (T, TupV))) or (isinstance(b, tuple) and not isinstance(b, (T, TupV))):
+            self.note("abstracted-binop", "operand is an iterator / view", n.lineno)
+            return self.opaque("binop")
+        if op is ast.BitAnd and isinstance(a, T) and isinstance(b, T) and isinstance(a.sort, tuple) and a.sort[0] == "Set" and a.sort == b.sort:
+            r = self.opaque("inter", a.sort)
+            st.pc.append(f"(forall ((|q_u| {sort_smt(a.sort[1])})) (= (select {r.s} |q_u|) (and (select {a.s} |q_u|) (select {b.s} |q_u|))))")
+            return r
         if isinstance(a, TupV) and isinstance(b, TupV) and op is ast.Add:
             return TupV(a.items + b.items)
         if op is ast.Add and (isinstance(a, EmptyV) or isinstance(b, EmptyV)):
@@ -226,7 +243,16 @@ class ExprMixin:
         if a.sort == STR and b.sort == STR and op is ast.Add:
             return T(STR, f"(str.++ {a.s} {b.s})")
         if op is ast.Add and isinstance(a.sort, tuple) and a.sort[0] == "Seq" and a.sort == b.sort:
-            return T(a.sort, f"(seq.++ {a.s} {b.s})")
+            term = T(a.sort, f"(seq.++ {a.s} {b.s})")
+            if self.spec_mode or self.cur_contract.get("concat_facts") is not True:
+                return term
+            # code-side list concatenation with index facts (asked for by the contract: positions in a command line etc.)
+            r = self.opaque("cat", a.sort)
+            st.pc.append(f"(= {r.s} {term.s})")
+            st.pc.append(f"(= (seq.len {r.s}) (+ (seq.len {a.s}) (seq.len {b.s})))")
+            st.pc.append(f"(forall ((|q_a| Int)) (! (=> (and (>= |q_a| 0) (< |q_a| (seq.len {a.s}))) (= (seq.nth {r.s} |q_a|) (seq.nth {a.s} |q_a|))) :pattern ((seq.nth {r.s} |q_a|))))")
+            st.pc.append(f"(forall ((|q_a| Int)) (! (=> (and (>= |q_a| (seq.len {a.s})) (< |q_a| (seq.len {r.s}))) (= (seq.nth {r.s} |q_a|) (seq.nth {b.s} (- |q_a| (seq.len {a.s}))))) :pattern ((seq.nth {r.s} |q_a|))))")
+            return r
         if op is ast.BitOr and isinstance(a.sort, tuple) and a.sort[0] == "Set" and a.sort == b.sort:
             r = self.opaque("union", a.sort)
             q = "|q_u|"
@@ -410,13 +436,25 @@ class ExprMixin:
                 if self.spec_mode and ddname in dd and getattr(self, "comp_side", None) is not None:
                     # inside a comprehension of the code: defaultdict read without modelling the insertion
                     dflt = T(s[2], dd[ddname])
-                    return T(s[2], f"(ite {is_some(e).s} {unopt(e).s} {dflt.s})")
+                    term = T(s[2], f"(ite {is_some(e).s} {unopt(e).s} {dflt.s})")
+                    if "|q_" not in k.s and "|q_" not in a.s:
+                        # name the value (no bound variable involved): keeps ite-over-sequence terms out of quantifier bodies
+                        nm = self.opaque("ddread", s[2])
+                        st.pc.append(f"(= {nm.s} {term.s})")
+                        return nm
+                    return term
                 if not self.spec_mode and ddname in dd:
                     # defaultdict: reading a missing key inserts the default and returns it
                     dflt = T(s[2], dd[ddname])
                     newm = T(s, f"(ite {is_some(e).s} {a.s} (store {a.s} {k.s} {some(self.ctx, dflt).s}))")
                     self.store_back(n.value, newm, st)
-                    return T(s[2], f"(ite {is_some(e).s} {unopt(e).s} {dflt.s})")
+                    term = T(s[2], f"(ite {is_some(e).s} {unopt(e).s} {dflt.s})")
+                    if isinstance(s[2], tuple) and s[2][0] == "Seq" and "|q_" not in k.s and "|q_" not in a.s:
+                        # name sequence-valued reads: ite-over-sequence terms inside later quantifiers triggered a wrong 'unsat' in z3
+                        nm = self.opaque("ddread", s[2])
+                        st.pc.append(f"(= {nm.s} {term.s})")
+                        return nm
+                    return term
                 if getattr(self, "comp_side", None) is not None and not self.in_spec:
                     self.comp_side.append(is_some(e).s)
                 if self.spec_mode or self.branch(is_some(e), st):
@@ -633,6 +671,8 @@ class ExprMixin:
         if isinstance(n, ast.ListComp) and src == "seq" and not g.ifs and isinstance(el, T):
             xs, i = env_upd["$seq"], qvars[0][0]
             r = self.opaque("lc", ("Seq", el.sort))
+            if el.s == f"(seq.nth {xs.s} {i})" and el.sort == xs.sort[1]:
+                return xs     # [x for x in xs]: a copy of the list
             st.pc.append(f"(= (seq.len {r.s}) (seq.len {xs.s}))")
             st.pc.append(f"(forall ({qdecl}) (=> {dom_cond} (= (seq.nth {r.s} {i}) {el.s})))")
             return r
